@@ -227,14 +227,48 @@ func runC08(c *core.Ctx) {
 		}
 		return out
 	}
+	staysOpen := false
+	c.Defer(func() {
+		// sockets that refused to close are closed for good when the run ends
+		var open []*simnet.Sock
+		all := d.W.Sockets()
+		d.W.Lock()
+		for _, s := range all {
+			if s.CloseStaysOpen {
+				s.CloseStaysOpen = false
+				open = append(open, s)
+			}
+		}
+		d.W.Unlock()
+		for _, s := range open {
+			_ = s.Close()
+		}
+	})
 	if closeErr {
+		// the failed Close either closes the socket anyway, or leaves it open (then only the deadline the
+		// agent sets can end its receive loop)
+		staysOpen = c.T.Bias(1, 3, "close-stays-open")
 		socks := aSocks()
 		d.W.Lock()
 		for _, s := range socks {
 			s.CloseErr = errors.New("simulated close error")
+			s.CloseStaysOpen = staysOpen
 		}
 		d.W.Unlock()
 		c.Fault("socket-close-error")
+		if staysOpen {
+			c.Fault("socket-close-error-stays-open")
+		}
+	}
+	if c.T.Bias(1, 4, "late-read-wakeup") {
+		// a blocked reader learns late that its socket was closed / its deadline moved into the past
+		socks := aSocks()
+		d.W.Lock()
+		for _, s := range socks {
+			s.ReadWakeDelay = 300 * time.Millisecond
+		}
+		d.W.Unlock()
+		c.Fault("late-read-wakeup")
 	}
 	if blockWrites {
 		for _, s := range aSocks() {
@@ -258,6 +292,8 @@ func runC08(c *core.Ctx) {
 		done         atomic.Bool
 		returned     time.Duration
 		openAtReturn []string // sockets of the agent still open at the instant this closer returned
+		// readersAtReturn: sockets of the agent inside whose read call a goroutine still sat at that instant
+		readersAtReturn []string
 	}
 	var closers []*closer
 	t0 := c.Now()
@@ -269,8 +305,11 @@ func runC08(c *core.Ctx) {
 			cl.returned = c.Now()
 			// "when Close has returned": evaluated at the instant of return, for every caller
 			for _, so := range aSocks() {
-				if !so.Closed() {
+				if !so.Closed() && !(staysOpen && so.CloseCalls > 0) {
 					cl.openAtReturn = append(cl.openAtReturn, so.Local.String())
+				}
+				if n := so.Readers(); n > 0 {
+					cl.readersAtReturn = append(cl.readersAtReturn, fmt.Sprintf("%s (%d)", so.Local, n))
 				}
 			}
 			cl.done.Store(true)
@@ -396,6 +435,11 @@ func runC08(c *core.Ctx) {
 		return
 	}
 	for _, cl := range closers {
+		if len(cl.readersAtReturn) > 0 {
+			c.Failf("C08/goroutine-in-read-after-close", "%s returned while a goroutine of the agent was still inside a read of %v (its receive loop was not joined; teardown at position %d of %d, kind %d)",
+				cl.name, cl.readersAtReturn, pos, len(ops), kind)
+			return
+		}
 		if len(cl.openAtReturn) > 0 {
 			c.Failf("C08/close-returned-before-teardown", "%s returned while sockets of the agent were still open (%v): a concurrent close was still in progress (cut %d/%d, kind %d)",
 				cl.name, cl.openAtReturn, pos, len(ops), kind)
@@ -499,6 +543,9 @@ func runC08(c *core.Ctx) {
 	}
 	_ = nStates
 	for _, s := range aSocks() {
+		if staysOpen && s.CloseCalls > 0 {
+			continue // the agent did close it; the simulated socket refuses to close (fault)
+		}
 		if !s.Closed() {
 			c.Failf("C08/socket-open-after-close", "socket %s of the closed agent is still open", s.Local)
 			return
